@@ -44,9 +44,19 @@ def gen_cases(tier, seed):
 
 def required(tier):
     return {"sec1.rt": 150, "sec1.cand": 3000, "sec1.cand.accept": 100, "sec1.class.len65_prefix02": 50, "sec1.class.offcurve": 50,
-            "sec1.class.x_ge_p": 50, "sec1.class.hybrid": 50, "wif.rt": 140, "wif.corrupt": 500, "wif.unknown_version": 100,
+            "sec1.class.x_ge_p": 50, "sec1.class.hybrid": 50, "sec1.class.coord_plus_p": 100, "wif.rt": 140, "wif.corrupt": 500, "wif.unknown_version": 100,
             "wif.badkey_refused": 10, "pem.priv": 32, "pem.priv.ossl_reads": 32, "pem.priv.lib_reads_ossl": 32, "pem.pub": 100,
             "pem.pub.ossl_reads": 100, "pem.pub.lib_reads_ossl": 100}
+
+
+_SMALL_X = None
+
+
+def _small_abscissae():
+    global _SMALL_X
+    if _SMALL_X is None:
+        _SMALL_X = [x for x in range(1, 60) if secp.SECP.lift_x(x) is not None][:8]
+    return _SMALL_X
 
 
 def _sec1_verdict(ctx, b, cls):
@@ -124,6 +134,14 @@ def run_case(kind, params, ctx):
             ("neg_y_uncompressed", b"\x04" + xb + (P - pt[1]).to_bytes(32, "big")),
             ("wrong_len", c[:-1]), ("wrong_len", c + b"\x00"), ("wrong_len", u[:-1]), ("wrong_len", u + b"\x00"), ("wrong_len", c[:32]), ("wrong_len", u[:64]),
         ]
+        # coordinates aliased modulo p: a small valid abscissa x (x + p still fits in 32 bytes only for x < 2^32 + 977)
+        for sx in _small_abscissae():
+            spt = secp.SECP.lift_x(sx)
+            for yy in (spt[1], secp.P - spt[1]):
+                cands.append(("coord_plus_p", b"\x04" + (sx + P).to_bytes(32, "big") + yy.to_bytes(32, "big")))
+            cands.append(("coord_plus_p", b"\x02" + (sx + P).to_bytes(32, "big")))
+            cands.append(("coord_plus_p", b"\x03" + (sx + P).to_bytes(32, "big")))
+            cands.append(("valid_small_x", b"\x04" + sx.to_bytes(32, "big") + spt[1].to_bytes(32, "big")))
         for _ in range(30):
             ln = rng.choice([33, 65, 33, 65, rng.randrange(0, 71)])
             b = rand_bytes(rng, ln)
